@@ -687,6 +687,9 @@ func replayOnce(bin, work, file, sig string) string {
 }
 
 func doReplay(bin, work, prop, file string) int {
+	if abs, err := filepath.Abs(file); err == nil {
+		file = abs
+	}
 	b, err := os.ReadFile(file)
 	if err != nil {
 		fatal2("replay file: %v", err)
@@ -790,7 +793,7 @@ func selftest(bin, work string, runs, workers int) int {
 		runs = 60
 	}
 	props := []string{}
-	for p := range map[string]bool{"C09": true} {
+	for p := range budgets {
 		props = append(props, p)
 	}
 	sort.Strings(props)
